@@ -54,6 +54,7 @@ fn sysline_json(next: FileOffset, sl: &s4lib::data::sysline::SyslineP) -> Value 
 }
 
 fn run_instance(inst: &Value) -> Value {
+    s4lib::verif::ev("Instance", &[("id", inst["id"].as_i64().unwrap_or(-1))]);
     let path = inst["path"].as_str().unwrap_or("").to_string();
     let blocksz = inst["blocksz"].as_u64().unwrap_or(64);
     let reader = inst["reader"].as_str().unwrap_or("sysline");
